@@ -6,6 +6,7 @@ package codecfam
 // they are checked by the monitors here, not by the model.
 
 import (
+	"math"
 	"bytes"
 	"fmt"
 	"hash/fnv"
@@ -74,8 +75,56 @@ func rndMsg(r *rand.Rand, kind string) sdk.Msg {
 	case "daoburn":
 		return govTypes.MsgDAOTransfer{FromAddress: rndAddr(r), Amount: rndInt(r), Action: govTypes.DAOBurnString}
 	default:
-		return govTypes.MsgUpgrade{Address: rndAddr(r), Upgrade: govTypes.NewUpgrade(r.Int63n(1000), []string{"", "1.0", "0.0.1-rc"}[r.Intn(3)])}
+		return govTypes.MsgUpgrade{Address: rndAddr(r), Upgrade: govTypes.NewUpgrade(rndHeight(r), []string{"", "1.0", "0.0.1-rc"}[r.Intn(3)])}
 	}
+}
+
+// rndHeight: an int64 height, boundary-biased (small, around the float64 integer limit 2^53, up to MaxInt64)
+func rndHeight(r *rand.Rand) int64 {
+	switch r.Intn(6) {
+	case 0:
+		return int64(1)<<53 + int64(r.Intn(9)) - 4
+	case 1:
+		return math.MaxInt64 - int64(r.Intn(1200))
+	case 2:
+		return r.Int63()
+	case 3:
+		return int64(1)<<uint(r.Intn(63)) + int64(r.Intn(3)) - 1
+	}
+	return r.Int63n(1000)
+}
+
+// neighbour: the same message with one numeric field one unit away (nil when the type has none)
+func neighbour(m sdk.Msg) sdk.Msg {
+	one := sdk.NewInt(1)
+	switch x := m.(type) {
+	case govTypes.MsgUpgrade:
+		if x.Upgrade.Height == math.MaxInt64 {
+			x.Upgrade.Height--
+		} else {
+			x.Upgrade.Height++
+		}
+		return x
+	case posTypes.MsgSend:
+		if x.Amount.BigInt() == nil {
+			return nil
+		}
+		x.Amount = x.Amount.Add(one)
+		return x
+	case posTypes.MsgStake:
+		if x.Value.BigInt() == nil {
+			return nil
+		}
+		x.Value = x.Value.Add(one)
+		return x
+	case govTypes.MsgDAOTransfer:
+		if x.Amount.BigInt() == nil {
+			return nil
+		}
+		x.Amount = x.Amount.Add(one)
+		return x
+	}
+	return nil
 }
 
 func rndTx(r *rand.Rand, kind string) authTypes.StdTx {
@@ -204,7 +253,20 @@ func (f *Fam) execWire(op string, w []string, fail func(string, string, string))
 		// different content, different sign bytes: change exactly one signed field
 		alt := tx
 		what := ""
-		switch r.Intn(5) {
+		switch r.Intn(6) {
+		case 5:
+			// the same message with one numeric field one unit away (heights beyond 2^53, amounts of any size)
+			var nb sdk.Msg
+			func() {
+				defer func() { recover() }() // an amount at the bound of the Int range
+				nb = neighbour(tx.Msg)
+			}()
+			if nb == nil {
+				return "done"
+			}
+			alt.Msg = nb
+			what = "message (one numeric field one unit away)"
+			f.extra["wire:sign-bytes-neighbour"]++
 		case 0:
 			alt.Memo += " "
 			what = "memo"
